@@ -744,6 +744,8 @@ class Fn:
             if found is None or found[2] is None:
                 break
             j, k, st = found
+            if k == 'T' and comp is not None:
+                break     # a component of a call result: the generic projection tree below is exact
             if k == 'T':
                 return self._def_tree(next(di for di, d in enumerate(self._defs()) if d[1] == path[j] and d[2] == 'T'), 80)
             r = st['r']
